@@ -425,6 +425,62 @@ func runC14Hist(r *fw.Run, h *c14Hist) []string {
 	return lr.viol
 }
 
+// c14BeforeServe: Shutdown is issued on a bound service before the serving call has started (race=false),
+// or concurrently with its start (race=true). The serving call must return without serving anyone.
+func c14BeforeServe(r *fw.Run, timeout, race bool) []string {
+	var viol []string
+	fail := func(class, format string, a ...interface{}) { viol = append(viol, class+"\x00"+fmt.Sprintf(format, a...)) }
+	svc, err := varlink.NewService("Verif", "Life", "1", "u")
+	if err != nil {
+		return nil
+	}
+	L := newCtlListener(r)
+	svc.VerifSetListener(L)
+	ctx, cancel := context.WithCancel(context.Background())
+	defer cancel()
+	to := time.Duration(0)
+	if timeout {
+		to = time.Hour
+	}
+	done := make(chan error, 1)
+	serve := func() {
+		err := svc.DoListen(ctx, to)
+		L.Rec("serve-return", fmt.Sprint(err))
+		done <- err
+	}
+	if race {
+		go serve()
+		L.Rec("shutdown-call", "")
+		svc.Shutdown()
+		L.Rec("shutdown-return", "")
+	} else {
+		L.Rec("shutdown-call", "")
+		svc.Shutdown()
+		L.Rec("shutdown-return", "")
+		go serve()
+	}
+	if st := L.State(); st.closeCalls == 0 {
+		fail("shutdown-did-not-close-listener", "Shutdown on a bound service that is not serving yet returned without closing the listener")
+	}
+	// a connection arriving now must never be served
+	c, _ := L.NewConn(1, false)
+	L.waitUntil(3*time.Millisecond, func() bool { return c.accepted })
+	if c.Accepted() {
+		if err := roundTrip(c.client, 2*time.Second); err == nil {
+			fail("served-after-shutdown", "Shutdown was issued before the serving call started; a connection arriving afterwards was accepted and served")
+		}
+	}
+	c.client.Close()
+	select {
+	case <-done:
+	case <-time.After(20 * time.Second):
+		st := L.State()
+		fail("serve-never-returns", "Shutdown was issued on the bound service before (or while) the serving call started; the serving call is still running 20 s later (listener closed=%v, loop parked in Accept=%v)", st.closed, st.parked)
+		L.Close()
+	}
+	return viol
+}
+
 // ---- history enumeration -------------------------------------------------------------------------
 
 var c14Prefix = []string{"connect", "call", "close", "abort", "fail", "cancel", "bind2", "listen2"}
@@ -541,6 +597,20 @@ func runC14(r *fw.Run) {
 			r.Sample(h)
 		}
 	})
+	// Shutdown before / while the serving call starts
+	for k := 0; k < r.Pick(60, 600); k++ {
+		race := k%3 != 0
+		for _, v := range c14BeforeServe(r, k%2 == 0, race) {
+			parts := strings.SplitN(v, "\x00", 2)
+			r.Violation("C14 "+parts[0], fmt.Sprintf("bound service, Shutdown before the serving call (racing=%v): %s", race, parts[1]), &c14Hist{Steps: []string{"sd-before-serve"}, Timeout: k%2 == 0, Late: race})
+		}
+		r.Case(fw.Hash("before-serve", fmt.Sprint(k%2 == 0, race)), true)
+		r.Count("shutdown_before_serve_runs", 1)
+		r.Distinct("shutdown_placements", map[bool]string{false: "sd-before-serve", true: "sd-racing-serve-start"}[race])
+		if r.ViolationCount() > 12 {
+			break
+		}
+	}
 	// (B) real sockets
 	for ci, cf := range []struct {
 		tr     string
@@ -803,6 +873,17 @@ func replayC14(r *fw.Run, raw json.RawMessage) {
 			r.Case(1, true)
 			r.Case(2, true)
 		}
+		return
+	}
+	if len(h.Steps) == 1 && h.Steps[0] == "sd-before-serve" {
+		for k := 0; k < 30; k++ {
+			for _, v := range c14BeforeServe(r, h.Timeout, h.Late) {
+				parts := strings.SplitN(v, "\x00", 2)
+				r.Violation("C14 "+parts[0], parts[1], &h)
+			}
+		}
+		r.Case(1, true)
+		r.Case(2, true)
 		return
 	}
 	for k := 0; k < 3; k++ {
